@@ -113,21 +113,24 @@ pub trait Observable<Item, Err, O: Observer<Item, Err>>: Sized {
 // ---- one-handle stand-ins for src/rc.rs MutRc / MutArc ----------------------------------------
 // What this drops, exactly: aliasing between clones of a handle and the dynamic borrow / lock
 // acquisition (RefCell re-entrancy panics, Mutex deadlock and poisoning).
-pub struct MutRc<T>(pub T);
-pub struct MutArc<T>(pub T);
+// Field 1 is the CELL IDENTITY (ghost): `own` yields an unspecified identity, `clone` and every
+// access keep it.  Two handles are provably "the same cell" only when one was clone()d from the
+// other; two cells created by two `own` calls are never provably the same, even with equal content.
+pub struct MutRc<T>(pub T, pub Ghost<int>);
+pub struct MutArc<T>(pub T, pub Ghost<int>);
 impl<T> MutRc<T> {
   pub fn rc_deref_mut(&mut self) -> (r: &mut T)
-    ensures *r == old(self).0, *final(r) == final(self).0,
+    ensures *r == old(self).0, *final(r) == final(self).0, final(self).1 == old(self).1,
   { &mut self.0 }
   pub fn rc_deref(&self) -> (r: &T) ensures *r == self.0 { &self.0 }
-  pub fn own(t: T) -> (r: Self) ensures r.0 == t { MutRc(t) }
+  pub fn own(t: T) -> (r: Self) ensures r.0 == t { MutRc(t, Ghost(arbitrary())) }
 }
 impl<T> MutArc<T> {
   pub fn rc_deref_mut(&mut self) -> (r: &mut T)
-    ensures *r == old(self).0, *final(r) == final(self).0,
+    ensures *r == old(self).0, *final(r) == final(self).0, final(self).1 == old(self).1,
   { &mut self.0 }
   pub fn rc_deref(&self) -> (r: &T) ensures *r == self.0 { &self.0 }
-  pub fn own(t: T) -> (r: Self) ensures r.0 == t { MutArc(t) }
+  pub fn own(t: T) -> (r: Self) ensures r.0 == t { MutArc(t, Ghost(arbitrary())) }
 }
 
 // ---- handle-world observer --------------------------------------------------------------------
